@@ -51,7 +51,8 @@ CATALOGUE = [
     ["-nostdinc"], ["-iquote", "q"], ["-idirafter", "d"], ["-L/x"], ["-lm"], ["-shared"], ["-fno-exceptions"], ["-pedantic"],
     ["-ffast-math"],
 ]
-ATTACHED = {0: ["A=1", "X=a=b", 'S="q r"'], 1: ["/p/q", "inc dir", "../i"], 2: ["/sys", "s y", "./s"], 3: ["f.h", "pre fix.h", "../g.h"]}
+ATTACHED = {0: ["A=1", "X=a=b-c", 'S="q r"'], 1: ["/p/q-r", "inc dir", "../i"], 2: ["/opt/my-lib/sys", "s y", "./s"],
+            3: ["cfg-host.h", "pre fix.h", "../g.h"]}
 DETACHED = {0: ["B", "Y=c=d", "T='u v'"], 1: ["/a/b", "my inc", "i-n-c"], 2: ["/usr/sys", "s-y s", "sys=1"],
             3: ["g.h", "a b.h", "pre-fix.h"]}
 FLAG = {0: "-D", 1: "-I", 2: "-isystem", 3: "-include"}
@@ -169,6 +170,8 @@ def _run_parse(argv, untraced):
 
 
 def _pre_val(v, pos):
+    if P.get("attached") and v[:1] == "=":
+        return False  # -D=... is rejected by gcc, -I=dir is gcc's sysroot-relative spelling: outside the property
     return _val_ok(v) and len(v) <= P["maxlen"] and 0 <= pos < 3
 
 
@@ -180,7 +183,10 @@ def h_value(v: str, pos: int) -> bool:
     # one detached option value is an arbitrary (symbolic) string; the unmodelled flag sits before, between or after
     kind = P["kind"]
     unknown = CATALOGUE[P["flag"]]
-    core = [[FLAG[kind], v], ["-DZ=1"], ["x.c"]]
+    if P.get("attached"):
+        core = [[FLAG[kind] + v], ["-DZ=1"], ["x.c"]]
+    else:
+        core = [[FLAG[kind], v], ["-DZ=1"], ["x.c"]]
     argv = []
     for i in range(3):
         if pos == i:
@@ -287,6 +293,11 @@ def obligations(tier, known):
         for kind in range(4):
             obs.append(Ob(id="value/%s/%s" % (CATALOGUE[f][0], FLAG[kind]), kind="ch", module=__name__, func="h_value",
                           params=dict(flag=f, kind=kind, maxlen=3 if tier == "quick" else 4), timeout=300, group="value"))
+    # attached values as arbitrary strings: -isystem/-include are split off by CBI's own string code (stays symbolic);
+    # for -D/-I argparse looks the prefix up in a dict, CrossHair then enumerates - kept to |v| <= 2 there
+    for kind in range(4):
+        obs.append(Ob(id="value-attached/%s" % FLAG[kind], kind="ch", module=__name__, func="h_value",
+                      params=dict(flag=8, kind=kind, maxlen=(3 if kind >= 2 else 2), attached=True), timeout=300, group="value"))
     obs.append(Ob(id="command/shlex", kind="ch", module=__name__, func="h_command", params=dict(n=len(CATALOGUE)), timeout=200,
                   group="command"))
     return obs
